@@ -55,9 +55,9 @@ type Objects struct {
 	// constructor -> mode / whether the subscribe function takes a context
 	Ctors map[*types.Func]*CtorInfo
 
-	ObserverCtors   map[*types.Func]ObserverCtor // NewObserver, NewObserverWithContext, OnNext...
-	SubscriberCtors map[*types.Func]Mode         // NewSubscriber... (identity on an existing subscriber)
-	NewSubscription *types.Func
+	ObserverCtors    map[*types.Func]ObserverCtor // NewObserver, NewObserverWithContext, OnNext...
+	SubscriberCtors  map[*types.Func]Mode         // NewSubscriber... (identity on an existing subscriber)
+	NewSubscription  *types.Func
 	RecoverUnhandled *types.Func
 
 	ModeConsts map[string]Mode // constant name -> Mode, by the value of the ConcurrencyMode constants
